@@ -148,6 +148,8 @@ def run_check(prop: str, tier: str, seed: int, only: str | None = None) -> int:
     assert len(ids) == len(set(ids)), "case ids must be unique"
     if only:
         cases = [c for c in cases if c["id"] == only or only in c["id"]]
+        # a filtered run must not overwrite the evidence of the registered (complete) command
+        os.environ.setdefault("VERIF_EVIDENCE_DIR", os.path.join(compat.VERIF_ROOT, ".cache", "evidence-partial"))
     budget = float(os.environ.get("VERIF_BUDGET_S", getattr(mod, "BUDGET_S", {}).get(tier, 1e9)))
     # determinism probe: the first case is executed twice (in different workers)
     probe = dict(cases[0], _probe=True) if cases and getattr(mod, "DETERMINISM_PROBE", True) else None
